@@ -70,7 +70,9 @@ func NewBTWorld(r *Run, engine string, clk *Clock, dir string) *BTWorld {
 		// a server clock that moves on between two looks at it (ServerTick > 0): a request
 		// that consults it more than once sees different instants
 		v := clk.ServerUs
-		clk.ServerUs += clk.ServerTick
+		if clk.ServerTick != 0 { // (never in the real-goroutine supplement: no write here)
+			clk.ServerUs += clk.ServerTick
+		}
 		return bigtable.Timestamp(v)
 	}}
 	switch engine {
@@ -635,6 +637,17 @@ func (w *BTWorld) DropRowRange(name string, prefix []byte, all bool) error {
 }
 
 func (w *BTWorld) GC(table string, force bool) bool { return w.svc.GC(table, force) }
+
+// Settle makes every engine handle finish its background work (goleveldb: write buffer flushed,
+// tables compacted): what the next iterator finds in memory and what in table files then no
+// longer depends on the timing of goleveldb's background goroutines.
+func (w *BTWorld) Settle() {
+	for _, yr := range w.rows {
+		if !yr.closed {
+			bttest.VerifSettle(yr.in)
+		}
+	}
+}
 
 // famsOf extracts family -> rule from a table definition.
 func famsOf(t *btapb.Table) map[string]*btapb.GcRule {
